@@ -36,7 +36,7 @@ std::string op_str(const Op &o)
     switch (o.k)
     {
     case O_LOCK:
-        return "lock";
+        return o.prio == 1 ? "lock(syslock)" : o.prio == 2 ? "lock(guard)" : "lock";
     case O_UNLOCK:
         return "unlock";
     case O_SAVE_RESTORE:
@@ -102,6 +102,9 @@ Program gen_program(Src &s)
                 if (depth < 3)
                 {
                     o.k = O_LOCK;
+                    // which entry point takes the lock: system_lock(), igris::syslock::lock() or an igris::syslock_guard
+                    // object (a function of the position in the program, not a drawn choice)
+                    o.prio = (t + i + depth) % 3;
                     depth++;
                 }
                 break;
